@@ -139,6 +139,12 @@ pub fn dialect_of(tgt: Tgt) -> Dialect {
 
 /// The oracle. `vectors` argument vectors per function.
 pub fn check_exec(source: &str, tgt: Tgt, arg_seed: u64, vectors: usize) -> Verdict {
+    check_exec_named(source, tgt, arg_seed, vectors, &std::collections::HashMap::new())
+}
+
+/// `emitted`: source-level name -> name in the emitted text, for entities the exporter renamed (C15)
+pub fn check_exec_named(source: &str, tgt: Tgt, arg_seed: u64, vectors: usize, emitted: &std::collections::HashMap<String, String>) -> Verdict {
+    let out_name = |n: &str| -> String { emitted.get(n).cloned().unwrap_or_else(|| n.to_string()) };
     let module = match type_check_text(source) {
         Err(p) => return Verdict::Fail { signature: format!("panic:{}", p), detail: "front end panicked".into() },
         Ok(Err(d)) => return Verdict::Skip(format!("front end rejects: {}", norm(d.lines().next().unwrap_or("")))),
@@ -186,7 +192,8 @@ pub fn check_exec(source: &str, tgt: Tgt, arg_seed: u64, vectors: usize) -> Verd
         let group: Vec<usize> = funcs.iter().enumerate().filter(|(_, (_, n))| n == q).map(|(i, _)| i).collect();
         let index_in_group = group.iter().position(|i| *i == pos).unwrap();
         let Some(imp) = reg.get_function_implementation(*id).clone() else { continue };
-        let Some(tf) = text_function_for(&unit, q, index_in_group, group.len()) else {
+        let by_group_index = emitted.get(&format!("{}#{}", q, index_in_group)).and_then(|n| unit.funcs.iter().filter(|f| f.has_body && !f.params.iter().any(|p| p.ty == ctext::TyE::TrueType)).find(|f| &f.name == n));
+        let Some(tf) = by_group_index.or_else(|| text_function_for(&unit, &out_name(q), index_in_group, group.len())).or_else(|| text_function_for(&unit, q, index_in_group, group.len())) else {
             // functions nobody calls may be dropped by a backend only if they are unreachable; in
             // no-pipeline mode everything is emitted, so a missing function is reported
             labels.push("text_function_missing".into());
@@ -264,7 +271,7 @@ pub fn check_exec(source: &str, tgt: Tgt, arg_seed: u64, vectors: usize) -> Verd
                 if p.mode != ctext::Mode::Ref {
                     return Verdict::Fail { signature: "implicit-parameter-by-value".into(), detail: format!("extra parameter {} of {} is not a reference\n{}", p.name, tf.name, text) };
                 }
-                let gid = (0..module.global_registry.len()).find(|g| module.global_registry[*g].name.node == p.name);
+                let gid = (0..module.global_registry.len()).find(|g| out_name(&module.global_registry[*g].name.node) == p.name);
                 let Some(gid) = gid else {
                     return Verdict::Fail { signature: "implicit-parameter-unknown".into(), detail: format!("extra parameter {} of {} names no global\n{}", p.name, tf.name, text) };
                 };
@@ -329,7 +336,7 @@ pub fn check_exec(source: &str, tgt: Tgt, arg_seed: u64, vectors: usize) -> Verd
                 if implicit.iter().any(|(_, id)| *id == g as u32) {
                     continue;
                 }
-                if let Some(b) = sem.global_value(&def.name.node) {
+                if let Some(b) = sem.global_value(&out_name(&def.name.node)) {
                     if !same(a, &b) {
                         return mismatch(&format!("global {}", def.name.node), a, &b);
                     }
